@@ -45,6 +45,11 @@ def region_before_restart(case):
 def gen_writes(rng, tier):
     """C06: writes addressed to every node, kills / stops / restarts of a minority, leader changes"""
     cases = []
+    # directed (both tiers): the same key written through a follower and then through another node; a write through
+    # every node; removal and re-publication through different nodes
+    d = ["up 3", "pub 2 k0 a0", "pub 3 k0 a1", "pub 1 k1 b0", "pub 2 k1 b1", "pub 3 k2 c0", "pub 3 k2 c1", "pub 2 k3 d0", "rm 3 k3",
+         "pub 1 k3 d1", "pub 2 k4 e0", "pub 1 k4 e1", "settle 4000", "getall k0", "getall k1", "getall k2", "getall k3", "getall k4"]
+    cases.append(Case("writes-every-node", d, True, "boundary"))
     if tier != "thorough":
         return cases
     for i in range(5):
@@ -99,4 +104,11 @@ def gen_registry(rng, tier):
             ops += ["kill %d" % victim, "settle 3000", "reg 1 svc1 10.0.0.9 80 0", "settle 3000", "start %d" % victim, "settle 9000"]
             ops += ["listall %s" % s for s in svcs]
         cases.append(Case("registry-%d" % i, ops, True, "random"))
+    # directed (both tiers): a rolling replacement - through each node in turn an instance is deregistered and a different
+    # one of the same service registered back to back, so that one 500 ms sync batch carries a removal and an update
+    d = ["up 3"] + ["reg %d svc1 10.0.1.%d 80 1" % (n, n) for n in (1, 2, 3)] + ["settle 1500"]
+    for n in (1, 2, 3):
+        d += ["dereg %d svc1 10.0.1.%d 80 1" % (n, n), "reg %d svc1 10.0.2.%d 80 1" % (n, n)]
+    d += ["settle 4000", "listall svc1"]
+    cases.append(Case("registry-rolling-replacement", d, True, "boundary"))
     return cases
